@@ -396,9 +396,11 @@ func (g *FnGen) applyContract(fc *FuncContract, pc *PkgContracts, c *ssa.CallCom
 		for _, a := range fc.Assigns {
 			g.havocLoc(env, a.E)
 		}
-		// caller frame: the callee's frame must be inside ours
-		if g.fc.HasAssigns {
-			g.note("callee frame inclusion for " + short + " is not checked (assigns of callee assumed inside caller's frame)")
+		// caller frame: the callee's frame must be inside ours (one obligation per callee location)
+		if g.fc.HasAssigns && !g.dry {
+			for k, a := range fc.Assigns {
+				g.calleeFrameInclusion(env, a.E, fmt.Sprintf("frame/call/%s#%d/loc#%d", short, n, k), pos)
+			}
 		}
 	} else {
 		g.havocAll("call to " + short + " (contract without assigns clause)")
@@ -468,6 +470,13 @@ func (g *FnGen) havocLoc(env *Env, loc Expr) {
 	case *ECall:
 		// mapof(m): the contents of map m; elemsof(s): the elements of slice s
 		id, _ := l.Fn.(*EIdent)
+		// fieldsof(T): every field of every object of struct type T; elemsoftype(T): the elements of every []T
+		if id != nil && len(l.Args) == 1 && (id.Name == "fieldsof" || id.Name == "elemsoftype") {
+			for _, fam := range g.typeFrameFams(env, id.Name, l.Args[0]) {
+				g.cur.h[fam] = g.heapNew(fam)
+			}
+			return
+		}
 		if id == nil || len(l.Args) != 1 || (id.Name != "mapof" && id.Name != "elemsof") {
 			g.unsupported("assigns: cannot interpret %s", exprString(loc))
 		}
@@ -496,6 +505,11 @@ func (g *FnGen) havocLoc(env *Env, loc Expr) {
 		x := env.tr(l.X)
 		p, ok := typeUnder(x.GT).(*types.Pointer)
 		if !ok {
+			// a field of a struct value that is itself stored in a field (s.f.g): havoc the enclosing location s.f
+			if _, isSt := typeUnder(x.GT).(*types.Struct); isSt {
+				g.havocLoc(env, l.X)
+				return
+			}
 			g.unsupported("assigns: %s is not a pointer", exprString(l.X))
 		}
 		st, ok := p.Elem().Underlying().(*types.Struct)
@@ -658,7 +672,10 @@ func (g *FnGen) builtin(instr ssa.Instruction, b *ssa.Builtin, c *ssa.CallCommon
 	case "print", "println":
 		return Val{}
 	case "recover":
-		g.unsupported("recover")
+		// panics are obligations of their own (or declared may-panic and not modelled): in the executions the
+		// contracts speak about no panic is in flight, so recover() yields nil
+		g.note("recover() modelled as returning nil (panicking executions are not modelled)")
+		return g.define(v, "nil_iface", "Iface")
 	case "ssa:wrapnilchk":
 		x := g.val(c.Args[0])
 		g.vals[v] = x
@@ -805,4 +822,184 @@ func (g *FnGen) copyBuiltin(v ssa.Value, c *ssa.CallCommon, pos token.Pos) Val {
 		g.vals[v] = r
 	}
 	return r
+}
+
+// typeFrameFams: the heap families named by the type-level frame locations fieldsof(T) / elemsoftype(T).
+func (g *FnGen) typeFrameFams(env *Env, kind string, arg Expr) []string {
+	var ts string
+	switch a := arg.(type) {
+	case *EType:
+		ts = a.T
+	default:
+		ts = exprString(a)
+	}
+	t := env.resolveType(ts)
+	if kind == "elemsoftype" {
+		fam, sort := g.elemFam(t)
+		g.famInit(fam, sort)
+		return []string{fam}
+	}
+	st, ok := t.Underlying().(*types.Struct)
+	if !ok {
+		g.unsupported("assigns: fieldsof(%s): not a struct type", ts)
+	}
+	var out []string
+	for i := 0; i < st.NumFields(); i++ {
+		fam, sort, _ := g.fieldFam(t, i)
+		g.famInit(fam, sort)
+		out = append(out, fam)
+	}
+	return out
+}
+
+// calleeFrameInclusion: the location loc of a callee's assigns clause (evaluated in env, the callee's pre-state) must lie
+// inside the verified function's own assigns clause, or in an object allocated by this function.
+func (g *FnGen) calleeFrameInclusion(env *Env, loc Expr, name string, pos token.Pos) {
+	a0 := g.heapGet(g.init, "$alloc", "Int")
+	own := g.entryEnv()
+	covered := func(a *Addr, guard string) {
+		alts := []string{fmt.Sprintf("(>= %s %s)", a.Ref, a0)}
+		for _, c := range g.fc.Assigns {
+			alts = append(alts, g.locCovers(own, c.E, a))
+		}
+		goal := "(or " + strings.Join(alts, " ") + ")"
+		if guard != "" {
+			goal = fmt.Sprintf("(=> %s %s)", guard, goal)
+		}
+		g.oblige("frame", name, goal, "callee's assigns location "+exprString(loc)+" stays inside the caller's assigns clause", pos)
+	}
+	switch l := loc.(type) {
+	case *ESel:
+		x := env.tr(l.X)
+		p, ok := typeUnder(x.GT).(*types.Pointer)
+		if !ok {
+			// field of a struct value stored in a field: the enclosing location
+			g.calleeFrameInclusion(env, l.X, name, pos)
+			return
+		}
+		if x.Addr != nil && x.Addr.Fam != "$struct" {
+			covered(x.Addr, "")
+			return
+		}
+		st, ok := p.Elem().Underlying().(*types.Struct)
+		if !ok {
+			g.unsupported("assigns: %s is not a struct pointer", exprString(l.X))
+		}
+		for i := 0; i < st.NumFields(); i++ {
+			if st.Field(i).Name() == l.Name {
+				fam, _, _ := g.fieldFam(p.Elem(), i)
+				covered(&Addr{Fam: fam, Ref: x.T}, "")
+				return
+			}
+		}
+		g.unsupported("assigns: no field %s", l.Name)
+	case *EIndex:
+		g.calleeFrameInclusion(env, &ESlice{X: l.X, Lo: l.I, Hi: &EBin{Op: "+", X: l.I, Y: &EInt{V: bigOne}}}, name, pos)
+	case *ESlice:
+		sv := env.tr(l.X)
+		st, ok := typeUnder(sv.GT).(*types.Slice)
+		if !ok {
+			g.unsupported("assigns: %s is not a slice", exprString(l.X))
+		}
+		fam, _ := g.elemFam(st.Elem())
+		lo := g.ilit64(0)
+		if l.Lo != nil {
+			lo = env.asIdx(env.tr(l.Lo))
+		}
+		hi := slen(sv.T)
+		if l.Hi != nil {
+			hi = env.asIdx(env.tr(l.Hi))
+		}
+		j := g.fresh("fj", g.idx())
+		covered(&Addr{Fam: fam, Ref: sref(sv.T), Idx: j}, fmt.Sprintf("(and %s %s)", g.sle(g.add(soff(sv.T), lo), j), g.slt(j, g.add(soff(sv.T), hi))))
+	case *EIdent:
+		if fam, ok := g.ghost[l.Name]; ok {
+			covered(&Addr{Fam: fam, Ref: "0"}, "")
+			return
+		}
+		if v, ok := env.vars[l.Name]; ok {
+			switch u := typeUnder(v.GT).(type) {
+			case *types.Slice:
+				g.calleeFrameInclusion(env, &ESlice{X: l}, name, pos)
+				return
+			case *types.Map:
+				g.calleeMapInclusion(v, name, loc, pos)
+				return
+			case *types.Pointer:
+				if st, ok := u.Elem().Underlying().(*types.Struct); ok {
+					for i := 0; i < st.NumFields(); i++ {
+						fam, _, _ := g.fieldFam(u.Elem(), i)
+						covered(&Addr{Fam: fam, Ref: v.T}, "")
+					}
+					return
+				}
+			}
+		}
+		if env.pkg != nil {
+			if o := env.pkg.Scope().Lookup(l.Name); o != nil {
+				if vv, ok := o.(*types.Var); ok {
+					covered(&Addr{Fam: "Glob_" + sanitize(vv.Pkg().Name()+"."+vv.Name()), Ref: "0"}, "")
+					return
+				}
+			}
+		}
+		g.unsupported("assigns: cannot interpret %s", l.Name)
+	case *ECall:
+		id, _ := l.Fn.(*EIdent)
+		if id != nil && len(l.Args) == 1 && (id.Name == "fieldsof" || id.Name == "elemsoftype") {
+			mine := map[string]bool{}
+			for _, c := range g.fc.Assigns {
+				if cc, ok := c.E.(*ECall); ok {
+					if cid, _ := cc.Fn.(*EIdent); cid != nil && len(cc.Args) == 1 && (cid.Name == "fieldsof" || cid.Name == "elemsoftype") {
+						for _, f := range g.typeFrameFams(own, cid.Name, cc.Args[0]) {
+							mine[f] = true
+						}
+					}
+				}
+			}
+			goal := "true"
+			for _, f := range g.typeFrameFams(env, id.Name, l.Args[0]) {
+				if !mine[f] {
+					goal = "false"
+				}
+			}
+			g.oblige("frame", name, goal, "callee's type-level frame "+exprString(loc)+" is named in the caller's assigns clause", pos)
+			return
+		}
+		if id != nil && len(l.Args) == 1 && (id.Name == "mapof" || id.Name == "elemsof") {
+			v := env.tr(l.Args[0])
+			switch typeUnder(v.GT).(type) {
+			case *types.Map:
+				g.calleeMapInclusion(v, name, loc, pos)
+			case *types.Slice:
+				g.calleeFrameInclusion(env, &ESlice{X: l.Args[0]}, name, pos)
+			}
+			return
+		}
+		g.unsupported("assigns: cannot interpret %s", exprString(loc))
+	default:
+		g.unsupported("assigns: cannot interpret %s", exprString(loc))
+	}
+}
+
+func (g *FnGen) calleeMapInclusion(m Val, name string, loc Expr, pos token.Pos) {
+	a0 := g.heapGet(g.init, "$alloc", "Int")
+	alts := []string{fmt.Sprintf("(>= %s %s)", m.T, a0)}
+	own := g.entryEnv()
+	for _, c := range g.fc.Assigns {
+		func() {
+			defer func() { recover() }()
+			var e Expr = c.E
+			if cc, ok := e.(*ECall); ok {
+				if cid, _ := cc.Fn.(*EIdent); cid != nil && cid.Name == "mapof" && len(cc.Args) == 1 {
+					e = cc.Args[0]
+				}
+			}
+			v := own.tr(e)
+			if _, ok := typeUnder(v.GT).(*types.Map); ok {
+				alts = append(alts, fmt.Sprintf("(= %s %s)", v.T, m.T))
+			}
+		}()
+	}
+	g.oblige("frame", name, "(or "+strings.Join(alts, " ")+")", "callee's assigns location "+exprString(loc)+" stays inside the caller's assigns clause", pos)
 }
